@@ -22,6 +22,11 @@ def run(chk, tier):
         A.each_deconstruct(chk, F, 'R14.3', cfg)
         from props import builder as B
         B.returner_error_latched(chk, F, 'R14.5', cfg)
+        # R14.6 'a configured return that cannot be produced' reaches the builder: composite conversions hand an inner failure on as the
+        # failure of the whole value (never a shortened vector, never another variant)
+        from props import outputs as O
+        O.variant_maps(chk, F, 'R14.6', cfg)
+        O.vec_traversals(chk, F, 'R14.6.vec', cfg)
         tfc = F.fn('assemble::MockAssembler::try_from_clause')
         for p in symex.Interp(F, inline=lambda f, d, n: f.kind == 'closure' or f.defp == 'assemble::MockAssembler::new').run(tfc):
             d = list(p.calls(r'^Clause::deconstruct$'))
